@@ -164,6 +164,7 @@ def r93(rep: Report, ctx: Ctx, sql) -> None:
     batch = ctx.func("compute_graph_hashes_for_batch")
     c = calls_in(ctx, batch, fetch)
     a = actual(c[0], fetch, "job_ids") if c else None
+    a = ctx.reach(batch).resolve(a, at=c[0]) if a is not None else None
     ok = isinstance(a, (ast.SetComp, ast.ListComp, ast.GeneratorExp)) \
         and isinstance(a.elt, ast.Attribute) and a.elt.attr == "job_id" \
         and not a.generators[0].ifs and isinstance(
@@ -464,8 +465,9 @@ def r98(rep: Report, ctx: Ctx) -> None:
         rep.ob("R9.8", f"{field} <- root.{want}", ok, fi=fi, node=c,
                detail=f"{field} = {unparse(v)}")
     v = kw(c, "job_hash")
-    ok = isinstance(v, ast.Call) and call_name(v) == hf.name and v.args \
-        and isinstance(v.args[0], ast.Name) and v.args[0].id == var
+    a0 = actual(v, hf, hf.params()[0]) if isinstance(v, ast.Call) \
+        and call_name(v) == hf.name else None
+    ok = isinstance(a0, ast.Name) and a0.id == var
     rep.ob("R9.8", "job_hash <- shape hash of that root", ok, fi=fi, node=c,
            detail=f"job_hash = {unparse(v)[:80]}")
 
